@@ -48,6 +48,10 @@ def evaluate(case, info=None):
     fmt = env.mod("main").format_code
     seq = [case["src"]]
     fails = []
+    if case.get("warm_width"):
+        # an earlier call of the same process on the same text with another line length: whatever it leaves behind
+        # (beyond the lru caches, which are cleared below) must not keep the later applications from settling
+        progcheck.run_tool(fmt, case["src"], **dict(kw, max_line_length=case["warm_width"]))
     for i in range(7):
         env.clear_caches()
         status, out, _ = progcheck.run_tool(fmt, seq[-1], **kw)
@@ -97,12 +101,14 @@ def run_shard(spec):
     acc = Acc()
     t0 = time.time()
 
-    def one(src, opts, label):
+    def one(src, opts, label, warm=None):
         case = {"src": src, "opts": opts}
+        if warm:
+            case["warm_width"] = warm
         info = {}
         fails = evaluate(case, info)
         k = info.get("k")
-        acc.case(case, k is not None and k != 0, [f"k={k}" if k is not None else "tool-failed", f"src:{label}"],
+        acc.case(case, k is not None and k != 0, [f"k={k}" if k is not None else "tool-failed", f"src:{label}"] + (["warmed-with-other-width"] if warm else []),
                  sample={"src": src[:300], "opts": opts, "applications_to_fixed_point": k})
         acc.fails(fails)
 
@@ -131,7 +137,9 @@ def run_shard(spec):
             from vf.checks.c01 import compose
             from vf import known_shapes
             label, src = compose(data.draw(st.lists(families.family_program(names=known_shapes.COMPOSABLE), min_size=2, max_size=3)))
-        one(src, data.draw(options()), label.split("+")[0] if kind != "compose" else "compose")
+        opts = data.draw(options())
+        warm = data.draw(st.sampled_from([None, None, 60, 79, 100, 120]))
+        one(src, opts, label.split("+")[0] if kind != "compose" else "compose", warm if warm != opts.get("max_line_length") else None)
 
     hyp.run(st.data(), go, spec["n"], spec["seed"], spec["budget_s"], acc, chunk=20)
     return acc
